@@ -492,13 +492,35 @@ Proof.
     intro H; inversion H; subst. apply IsErr. apply str_in_In. vm_compute. reflexivity.
 Qed.
 
+(* the pre-pass over leading blank lines only drops a prefix of the input *)
+Lemma lead_blank_len s : forall line k nsp toks ls,
+  (length ls <= length s + N.to_nat nsp)%nat ->
+  (length (fst (fst (fst (lead_blank s line k nsp toks ls)))) <= length s + N.to_nat nsp)%nat.
+Proof.
+  induction s as [|c r IH]; intros line k nsp toks ls Hl; cbn [lead_blank].
+  - exact Hl.
+  - destruct (N.eqb c c_sp).
+    + specialize (IH line k (nsp + 1)%N toks ls). cbn [length] in *. rewrite N2Nat.inj_add in IH. change (N.to_nat 1) with 1%nat in IH. lia.
+    + destruct (N.eqb c c_nl).
+      * specialize (IH (line + 1)%N (k + nsp + 1)%N 0%N
+                       (mkTok NEWLINE (TVText [c_nl]) line 1 None :: toks) r). cbn [length] in *. change (N.to_nat 0) with 0%nat in IH. lia.
+      * cbn [fst]. exact Hl.
+Qed.
+
+Lemma init_state_len content spans : (length (ls_in (init_state content spans)) <= length content)%nat.
+Proof.
+  unfold init_state. pose proof (lead_blank_len content 1 0 0 [] content) as H.
+  destruct (lead_blank content 1 0 0 [] content) as [[[rest line] k] toks]. cbn [fst] in H.
+  destruct toks; cbn [ls_in]; [lia|]. cbn in H. lia.
+Qed.
+
 Theorem tokenize_total lenient lines : is_err_or_ok (tokenize cls lenient lines).
 Proof.
   unfold tokenize. destruct (fence_scan cls lines 1 0 None [] []) as [e|[outs spans]] eqn:E.
   - eapply fence_scan_err; eauto.
   - destruct (tab_check (join [c_nl] outs) 0 1 1 spans) as [[l c]|].
     + apply IsErr. apply str_in_In. vm_compute. reflexivity.
-    + apply run_enough_fuel. cbn [ls_in]. lia.
+    + apply run_enough_fuel. pose proof (init_state_len (join [c_nl] outs) spans). lia.
 Qed.
 
 Theorem run_never_out_of_fuel lenient lines : tokenize cls lenient lines <> LexFuel.
